@@ -382,3 +382,19 @@ PROPS["C06"] = {
         {"pkg": "verifx/tree", "run": "^TestC06KnownUnadoptedBranch$", "all": {"shards": 1, "timeout": 120}},
     ],
 }
+
+PROPS["C17"] = {
+    "title": "Block sync delivers a gap-free ascending chain from a true common ancestor",
+    "level": "exploration",
+    "technique": "fault-schedule PBT (rapid) against the real Syncer with the harness playing every other actor: generated per-request fault plans (errors, short / extra / unlinked / foreign chunks, late, never, stale-session answers); history invariants over the blocks handed to the chain service, the ancestor, termination and restartability",
+    "level_text": ("Local / remote stub chains (highest shared block 0-12, 0-8 local and 1-40 remote blocks above it, 1-3 peers, hash request size 3-7, chunk size 2-5, 1-4 parallel tasks, anchor scan on or forced full scan); every GetSyncAncestor / GetHashByNo / GetHashes / GetBlockChunks / AddBlock request is answered according to a generated plan. "
+                   "Checked on every run: blocks handed to the chain service are strictly ascending, contiguous from ancestor+1, each the child of its predecessor, no duplicates; the ancestor lies on both chains and is the highest shared block whenever the full scan decided; the session ends (within 25 s) not running, success implies the target height, a run with only delays / stale answers must succeed, and a second fault-free session reaches the remote tip."),
+    "level_note": "The syncer's goroutines and its 250 ms fetch timeout make the interleaving only partly controlled: the fault plan is data (cyclic decision lists per request kind), the arrival order of requests is the scheduler's. A run that does not end within 25 s is reported as a violation only because the unchanged tree never needed more than 3 s in 50 000 runs; set VERIF_C17_DEADLINE to change it. Blocks of the stub chains carry wall-clock timestamps, so hashes differ between runs while the structure is replayed.",
+    "rule": ("a case = (chains, configuration, fault plan); non-trivial = at least one injected fault or reordering and a target at least two chunks above the ancestor; distinct = distinct description."),
+    "assumptions": ["chain.StubBlockChain (repository test helper) is a correct model of the chain service's AddBlock contract"],
+    "units": [
+        {"pkg": "syncer", "run": "^TestC17Sync$",
+         "quick": {"checks": 60, "shards": 12, "timeout": 600},
+         "thorough": {"checks": 800, "shards": 16, "timeout": 1700}},
+    ],
+}
